@@ -121,3 +121,23 @@ Definition v_sfile2 (d : byte) (t : table) (text : list byte) (h : hdr) (out : r
   verdict (bytes_eqb (fst (fst m)) text && hdr_eqb (snd (fst m)) h && result_eqb table_eqb (snd m) out)
           (if in_scope d t then roundtrip_check t out && header_check d t h else true)
   + extra_bits2 ft pt d t.
+
+(* ------------------------------------------------------------------ reading hand-made (possibly malformed) text:
+   Recfile(mode='r', dtype=, delim=, nrows=).read() on arbitrary bytes; only the correspondence is judged (the property
+   is about round trips), so that the scanner theorems of ScanSpec.v are about the code that runs *)
+Definition m_rawread (d : byte) (fs : list fld) (nrows : Z) (text : list byte) : result table :=
+  read_text P_model d fs nrows text.
+Definition v_rawread (d : byte) (fs : list fld) (nrows : Z) (text : list byte) (out : result table) : Z :=
+  verdict (result_eqb table_eqb (m_rawread d fs nrows text) out) true.
+
+(* Recfile(mode='r', dtype=, delim=, nrows=k).read() with k smaller than the number of rows written: the first k rows *)
+Definition trunc_table (t : table) (k : Z) : table := {| tdt := tdt t; trows := firstn (Z.to_nat k) (trows t) |}.
+Definition v_recfile_n (d : byte) (t : table) (k : Z) (text : list byte) (out : result table) : Z :=
+  let ft := ftab t in let pt := ptab ft in
+  let mt := write_text (F_tab ft) d t in
+  verdict (bytes_eqb mt text && result_eqb table_eqb (read_text (P_tab pt) d (tdt t) k mt) out)
+          (if in_scope d t then roundtrip_check (trunc_table t k) out else true)
+  + extra_bits2 ft pt d t.
+Definition m_recfile_n (d : byte) (t : table) (k : Z) :=
+  let ft := ftab t in let pt := ptab ft in
+  let mt := write_text (F_tab ft) d t in (mt, read_text (P_tab pt) d (tdt t) k mt).
